@@ -5,14 +5,12 @@ import (
 	"fmt"
 	"sort"
 	"strings"
+	"time"
 
 	"github.com/bufbuild/buf/private/bufpkg/bufconfig"
-	"github.com/bufbuild/buf/private/bufpkg/bufmodule"
-	"github.com/bufbuild/buf/private/bufpkg/bufmodule/bufmoduletesting"
 	"github.com/bufbuild/buf/private/pkg/uuidutil"
 	"github.com/bufbuild/bufverif/internal/bufx"
 	"github.com/bufbuild/bufverif/internal/evid"
-	"github.com/google/uuid"
 )
 
 // ---------------------------------------------------------------------------------------------
@@ -30,8 +28,14 @@ import (
 //   - a ref (label / commit) on a migrated dependency is one that some module declared, and a
 //     dependency that some module pinned with a ref stays pinned with a ref;
 //   - every module pinned by some v1 buf.lock that is not a module of the workspace is pinned by
-//     the migrated buf.lock, at a commit some buf.lock pinned (any commit when a declared ref
-//     decides), and nothing unpinned before is pinned after.
+//     the migrated buf.lock, at a commit some buf.lock pinned (or the commit of the migrated ref when
+//     a declared ref decides), and nothing unpinned before is pinned after;
+//   - (round 3) a v2 workspace holds ONE ref and ONE pin per dependency. When the modules disagree
+//     (two different refs declared; lock files that pin different commits and no ref to decide) the
+//     survivor must be the NEWEST by registry create time: that is what a v1 buf.work.yaml workspace
+//     already builds every module against (bufmodule keeps the remote module with the latest create
+//     time), and, registry commits being backward compatible, the only choice under which the
+//     module that was written against the newer commit still builds the same files.
 // ---------------------------------------------------------------------------------------------
 
 func checkMigratedDeps(r sink, c MigCase, after, migrated map[string]string, cov *counter) {
@@ -116,6 +120,15 @@ func checkMigratedDeps(r sink, c MigCase, after, migrated map[string]string, cov
 			r.Violate("migrate/deps/ref-invented", fmt.Sprintf("dependency %s is migrated with ref %q, which no module declared (declared refs %q)", name, g[0], sortedKeys(refs)), evidence())
 		case g[0] == "" && shape(refs) != "declared-unpinned":
 			r.Violate("migrate/deps/ref-dropped/"+shape(refs), fmt.Sprintf("dependency %s was pinned with a ref by some module (declared refs %q) and is migrated without a ref", name, sortedKeys(refs)), evidence())
+		default:
+			if want, ok := c.newestDeclaredRef(name, refs); ok {
+				cov.add("deps_oracle/two_refs_on_different_commits", 1)
+				if g[0] != want {
+					r.Violate("migrate/deps/ref-not-latest",
+						fmt.Sprintf("dependency %s is declared with refs %q, which the registry resolves to different commits; the migrated buf.yaml keeps %q, the newest is %q: the module that was written against the newer commit is now built against an older one",
+							name, sortedKeys(refs), g[0], want), evidence())
+				}
+			}
 		}
 	}
 	gotNames := make([]string, 0, len(got))
@@ -175,8 +188,29 @@ func checkMigratedDeps(r sink, c MigCase, after, migrated map[string]string, cov
 			continue
 		}
 		refDecides := declared[name] != nil && shape(declared[name]) != "declared-unpinned"
-		if !pinned[name][commit] && !refDecides {
+		switch {
+		case refDecides:
+			// the pin follows the ref: a commit some lock pinned, or the commit the migrated ref resolves to
+			ofRef := c.RefCommits == nil // no registry tables recorded (workspace grammar): not judged
+			if g := got[name]; len(g) == 1 && c.RefCommits[name][g[0]] == commit {
+				ofRef = true
+			}
+			if !pinned[name][commit] && !ofRef {
+				r.Violate("migrate/lock/commit-changed", fmt.Sprintf("module %s is pinned at %s after migration; the v1 buf.lock files pinned %v and the migrated ref %q does not resolve to it", name, commit, sortedKeys(pinned[name]), got[name]), evidence())
+			}
+		case !pinned[name][commit]:
 			r.Violate("migrate/lock/commit-changed", fmt.Sprintf("module %s is pinned at %s after migration; the v1 buf.lock files pinned %v", name, commit, sortedKeys(pinned[name])), evidence())
+		case len(pinned[name]) > 1 && c.CommitTimes != nil:
+			role := "declared-dependency"
+			if declared[name] == nil {
+				role = "indirect-dependency"
+			}
+			cov.add("deps_oracle/locks_disagree_without_ref/"+role, 1)
+			if newest := c.newestCommit(sortedKeys(pinned[name])); commit != newest {
+				r.Violate("migrate/lock/commit-not-latest/"+role,
+					fmt.Sprintf("the v1 buf.lock files pin module %s at different commits %v and no ref decides; the migrated buf.lock keeps %s, the newest by create time is %s: the module that was locked to the newer commit is now built against an older one",
+						name, sortedKeys(pinned[name]), commit, newest), evidence())
+			}
 		}
 	}
 	for name := range gotPins {
@@ -195,6 +229,47 @@ func refsByName(decl []declDep) map[string]map[string]bool {
 		out[d.Name][d.Ref] = true
 	}
 	return out
+}
+
+// newestCommit returns the commit (dashless) with the latest recorded create time.
+func (c MigCase) newestCommit(commits []string) string {
+	best := ""
+	var bestTime time.Time
+	for _, id := range commits {
+		if t := c.CommitTimes[id]; best == "" || t.After(bestTime) {
+			best, bestTime = id, t
+		}
+	}
+	return best
+}
+
+// newestDeclaredRef: when two or more different refs (labels) of one dependency are declared and the
+// registry resolves them to different commits, the ref whose commit is the newest.
+func (c MigCase) newestDeclaredRef(name string, refs map[string]bool) (string, bool) {
+	if c.RefCommits == nil {
+		return "", false
+	}
+	var pinnedRefs []string
+	for _, ref := range sortedKeys(refs) {
+		if ref != "" {
+			pinnedRefs = append(pinnedRefs, ref)
+		}
+	}
+	if len(pinnedRefs) < 2 {
+		return "", false
+	}
+	best := ""
+	var bestTime time.Time
+	for _, ref := range pinnedRefs {
+		id, ok := c.RefCommits[name][ref]
+		if !ok {
+			return "", false
+		}
+		if t := c.CommitTimes[id]; best == "" || t.After(bestTime) {
+			best, bestTime = ref, t
+		}
+	}
+	return best, true
 }
 
 func sortedKeys(set map[string]bool) []string {
@@ -229,6 +304,14 @@ func depDims() []Dim {
 		{"d.lock", 3},   // 0 every module that declares a remote dependency has a buf.lock (and imports the dependency); 1 no buf.lock anywhere; 2 only the first declaring module has one
 		{"d.ver", 3},    // 0 all v1; 1 module b is v1beta1; 2 all v1beta1
 		{"d.extra", 5},  // 0 none; 1 a declares a second dependency unpinned; 2 a and b declare it unpinned; 3 a declares it with :r1; 4 a is named and b declares (and imports) workspace module a
+		// round 3: the registry holds a history per module (registry.go). A lock of a module that declares
+		// the shared dependency with a label pins the label's commit; the locks of the modules that declare
+		// it UNPINNED were written at different times: commit levels (1 oldest .. 3 head) of the 1st, 2nd,
+		// 3rd such module with a buf.lock
+		{"d.pins", 5}, // 0 (3,3,3) all at the head; 1 (2,3,3) the first lock is older (the indirect dependency differs too); 2 (3,2,3) the second is older; 3 (1,2,2) both stale, the indirect dependency agrees; 4 (2,3,1) three different commits
+		// form of the digests in the v1 buf.lock files (the format of the buf CLI that wrote them)
+		{"d.digest", 3},  // 0 shake256 (b4); 1 none: commit-only entries (before ~v1.10); 2 retired digest types b1- / b3- with the branch and create_time keys of that era
+		{"d.lockver", 3}, // version key of the buf.lock files: 0 v1; 1 v1beta1; 2 no version key
 	}
 }
 
@@ -239,20 +322,35 @@ const (
 	modaName   = "buf.build/acme/moda"
 )
 
-const protoShared = `syntax = "proto3";
-package shared.v1;
-import "base/v1/t.proto";
-message D {
-  base.v1.T t = 1;
+// The history of the shared dependency: every commit is a backward compatible superset of the one
+// before (what `buf breaking` enforces on a registry module); commit 3 needs commit 2 of base.
+func protoSharedAt(level int) string {
+	s := "syntax = \"proto3\";\npackage shared.v1;\nimport \"base/v1/t.proto\";\nmessage D {\n  base.v1.T t = 1;\n}\n"
+	if level >= 2 {
+		s += "message D2 {\n  string v = 1;\n}\n"
+	}
+	if level >= 3 {
+		s += "message D3 {\n  base.v1.T2 t2 = 1;\n}\n"
+	}
+	return s
 }
-`
 
-const protoBase = `syntax = "proto3";
-package base.v1;
-message T {
-  string x = 1;
+func protoBaseAt(level int) string {
+	s := "syntax = \"proto3\";\npackage base.v1;\nmessage T {\n  string x = 1;\n}\n"
+	if level >= 2 {
+		s += "message T2 {\n  string y = 1;\n}\n"
+	}
+	return s
 }
-`
+
+// baseLevelOfShared: the commit of base that commit `level` of shared was pushed with (and that a
+// buf.lock written by `buf mod update` lists next to it).
+func baseLevelOfShared(level int) int {
+	if level >= 3 {
+		return 2
+	}
+	return 1
+}
 
 const protoExtra = `syntax = "proto3";
 package extra.v1;
@@ -261,10 +359,12 @@ message E {
 }
 `
 
-func depWorldProto(pkg string, edited, useShared, useExtra bool, importA bool) string {
+// depWorldProto is the one .proto file of a module of a dependency world. sharedLevel > 0: the file
+// imports the shared dependency and uses what commit `sharedLevel` of it added.
+func depWorldProto(pkg string, edited bool, sharedLevel int, useExtra bool, importA bool) string {
 	var b strings.Builder
 	b.WriteString("syntax = \"proto3\";\npackage " + pkg + ";\n")
-	if useShared {
+	if sharedLevel > 0 {
 		b.WriteString("import \"shared/v1/d.proto\";\n")
 	}
 	if useExtra {
@@ -277,7 +377,7 @@ func depWorldProto(pkg string, edited, useShared, useExtra bool, importA bool) s
 	if !edited {
 		b.WriteString("  int32 old = 2;\n")
 	}
-	if useShared {
+	if sharedLevel > 0 {
 		b.WriteString("  shared.v1.D d = 3;\n")
 	}
 	if useExtra {
@@ -286,59 +386,68 @@ func depWorldProto(pkg string, edited, useShared, useExtra bool, importA bool) s
 	if importA {
 		b.WriteString("  ma.v1.X a = 5;\n")
 	}
-	b.WriteString("  string BadName = 6;\n}\n")
+	b.WriteString("  string BadName = 6;\n")
+	if sharedLevel >= 2 {
+		b.WriteString("  shared.v1.D2 d2 = 7;\n")
+	}
+	if sharedLevel >= 3 {
+		b.WriteString("  shared.v1.D3 d3 = 8;\n")
+	}
+	b.WriteString("}\n")
 	return b.String()
 }
 
-// newDepWorldDeps builds the three remote modules of the dependency-merge worlds in-process.
+// newDepWorldDeps builds the registry of the dependency-merge worlds in-process: three commits of
+// shared, two of base, one of extra and of the published state of module a.
 func newDepWorldDeps() (*migDeps, error) {
-	specs := []struct {
-		name, path, text string
-	}{
-		{baseName, "base/v1/t.proto", protoBase},
-		{sharedName, "shared/v1/d.proto", protoShared},
-		{extraName, "extra/v1/e.proto", protoExtra},
-		// the published state of module a of the worlds in which a is named (d.extra=4): what a sibling
-		// module directory that is not in a common buf.work.yaml resolves `buf.build/acme/moda` to
-		{modaName, "ma/v1/x.proto", depWorldProto("ma.v1", false, false, false, false)},
+	day := func(y int, mo time.Month) time.Time { return time.Date(y, mo, 1, 12, 0, 0, 0, time.UTC) }
+	base1 := regModule{Name: baseName, Seed: "depworld-" + baseName, Time: day(2021, 1), Files: map[string]string{"base/v1/t.proto": protoBaseAt(1)}}
+	base2 := regModule{Name: baseName, Seed: "depworld2-" + baseName, Time: day(2023, 1), Files: map[string]string{"base/v1/t.proto": protoBaseAt(2)}}
+	shared := func(level int, seed string, t time.Time) regModule {
+		return regModule{Name: sharedName, Seed: seed, Time: t, Files: map[string]string{"shared/v1/d.proto": protoSharedAt(level)}}
 	}
-	var datas []bufmoduletesting.ModuleData
-	for _, s := range specs {
-		datas = append(datas, bufmoduletesting.ModuleData{
-			Name:       s.name,
-			CommitID:   fixedUUID("depworld-" + s.name),
-			PathToData: map[string][]byte{s.path: []byte(s.text)},
-		})
-	}
-	omni, err := bufmoduletesting.NewOmniProvider(datas...)
+	reg, err := newMultiRegistry([][]regModule{
+		{
+			base1, shared(1, "depworld-"+sharedName, day(2021, 2)),
+			{Name: extraName, Seed: "depworld-" + extraName, Time: day(2021, 3), Files: map[string]string{"extra/v1/e.proto": protoExtra}},
+			// the published state of module a of the worlds in which a is named (d.extra=4): what a sibling
+			// module directory that is not in a common buf.work.yaml resolves `buf.build/acme/moda` to
+			{Name: modaName, Seed: "depworld-" + modaName, Time: day(2021, 4), Files: map[string]string{"ma/v1/x.proto": depWorldProto("ma.v1", false, 0, false, false)}},
+		},
+		{base1, shared(2, "depworld2-"+sharedName, day(2022, 2))},
+		{base2, shared(3, "depworld3-"+sharedName, day(2023, 2))},
+	}, map[string]map[string]string{
+		sharedName: {"r1": "depworld-" + sharedName, "r2": "depworld2-" + sharedName},
+		extraName:  {"r1": "depworld-" + extraName},
+	})
 	if err != nil {
 		return nil, err
 	}
-	d := &migDeps{omni: omni, prov: bufx.Providers{Graph: omni, ModuleData: omni, Commit: omni}, mods: map[string]depMod{}}
-	for _, data := range datas {
-		mod := omni.GetModuleForCommitID(data.CommitID)
-		if mod == nil {
-			return nil, fmt.Errorf("module %s not found", data.Name)
+	return &migDeps{reg: reg, keyProv: reg, commitProv: reg, prov: bufx.Providers{Graph: reg, ModuleData: reg, Commit: reg}}, nil
+}
+
+// lockEntry renders one dep of a v1 buf.lock in the form `digest` of dimension d.digest.
+func lockEntry(rc regCommit, digest int) m {
+	parts := strings.Split(rc.Name, "/")
+	e := m{"remote": parts[0], "owner": parts[1], "repository": parts[2], "commit": rc.dashless()}
+	switch digest {
+	case 0:
+		e["digest"] = rc.B4
+	case 2:
+		// what the buf CLI of 2021 wrote: a digest type that was retired in v1.32, the branch and the create time
+		e["digest"] = "b1-" + strings.Repeat("B", 43) + "="
+		if rc.Name == baseName {
+			e["digest"] = "b3-" + strings.Repeat("A", 43) + "="
 		}
-		b4, err := mod.Digest(bufmodule.DigestTypeB4)
-		if err != nil {
-			return nil, err
-		}
-		d.mods[data.Name] = depMod{commit: data.CommitID, b4: b4.String()}
+		e["branch"] = "main"
+		e["create_time"] = rc.Time.Format(time.RFC3339)
 	}
-	return d, nil
+	return e
 }
 
-type depMod struct {
-	commit uuid.UUID
-	b4     string
-}
-
-func (d *migDeps) lockEntry(name string) m {
-	parts := strings.Split(name, "/")
-	mod := d.mods[name]
-	return m{"remote": parts[0], "owner": parts[1], "repository": parts[2], "commit": uuidutil.ToDashless(mod.commit), "digest": mod.b4}
-}
+// unpinnedLockLevels: commit level of the shared dependency in the lock of the k-th module (k = 0, 1,
+// 2) that declares it unpinned and has a buf.lock, per value of d.pins.
+var unpinnedLockLevels = [][3]int{{3, 3, 3}, {2, 3, 3}, {3, 2, 3}, {1, 2, 2}, {2, 3, 1}}
 
 // buildDepWorld renders one dependency-merge world and its edited copy.
 func buildDepWorld(dims []Dim, ix dimIndex, v []int, deps *migDeps) (MigCase, bool) {
@@ -348,11 +457,13 @@ func buildDepWorld(dims []Dim, ix dimIndex, v []int, deps *migDeps) (MigCase, bo
 			c.Vector[d.Name] = v[i]
 		}
 	}
+	reg := deps.reg
 	dirs := []string{"a", "b"}
 	if ix.val(v, "d.c") != 0 {
 		dirs = append(dirs, "c")
 	}
 	lockMode, ver, extra, layout := ix.val(v, "d.lock"), ix.val(v, "d.ver"), ix.val(v, "d.extra"), ix.val(v, "d.layout")
+	pins, digest, lockver := ix.val(v, "d.pins"), ix.val(v, "d.digest"), ix.val(v, "d.lockver")
 	refOf := func(val int) (string, bool) {
 		switch val {
 		case 1:
@@ -412,15 +523,67 @@ func buildDepWorld(dims []Dim, ix dimIndex, v []int, deps *migDeps) (MigCase, bo
 			break
 		}
 	}
+	hasLock := map[string]bool{}
 	for _, dir := range dirs {
-		hasLock := false
 		switch lockMode {
 		case 0:
-			hasLock = declaresRemote(dir)
+			hasLock[dir] = declaresRemote(dir)
 		case 2:
-			hasLock = dir == firstDeclarer
+			hasLock[dir] = dir == firstDeclarer
 		}
-		useShared, useExtra := false, false
+	}
+	// which commit of the shared dependency the lock of every module pins
+	sharedLevel := map[string]int{}
+	unpinnedLocks, anyLock := 0, false
+	pinnedRefs := map[string]bool{}
+	for _, dir := range dirs {
+		anyLock = anyLock || hasLock[dir]
+		for _, d := range decl[dir] {
+			if d.Name != sharedName {
+				continue
+			}
+			if d.Ref != "" {
+				pinnedRefs[d.Ref] = true
+			}
+			if !hasLock[dir] {
+				continue
+			}
+			if d.Ref != "" {
+				rc, _ := reg.resolve(sharedName, d.Ref)
+				sharedLevel[dir] = rc.Level
+			} else {
+				sharedLevel[dir] = unpinnedLockLevels[pins][unpinnedLocks]
+				unpinnedLocks++
+			}
+		}
+	}
+	switch {
+	case pins == 4 && unpinnedLocks < 3, pins >= 1 && unpinnedLocks < 2:
+		return c, false // the value needs that many locks of modules that declare the dependency unpinned
+	case (digest != 0 || lockver != 0) && !anyLock:
+		return c, false // no buf.lock to carry the form
+	}
+	// The commit of the shared dependency the migrated workspace is expected to end up with (reference
+	// model, used only to decide how much of the dependency a module may use so that the world is a
+	// valid workspace before AND after a faithful migration): the newest declared label if there is
+	// one, else the newest locked commit. A module uses everything its own locked commit offers up to
+	// that level; a migration that keeps an older commit then no longer builds the module.
+	finalLevel := 0
+	for ref := range pinnedRefs {
+		if rc, _ := reg.resolve(sharedName, ref); rc.Level > finalLevel {
+			finalLevel = rc.Level
+		}
+	}
+	if finalLevel == 0 {
+		for _, l := range sharedLevel {
+			if l > finalLevel {
+				finalLevel = l
+			}
+		}
+	}
+	lockVersion := []string{"v1", "v1beta1", ""}[lockver]
+	for _, dir := range dirs {
+		useLevel, useExtra := 0, false
 		y := m{"version": "v1"}
 		role := "v1-module"
 		if ver == 2 || ver == 1 && dir == "b" {
@@ -432,7 +595,7 @@ func buildDepWorld(dims []Dim, ix dimIndex, v []int, deps *migDeps) (MigCase, bo
 			y["name"] = name
 		}
 		var depStrings []string
-		var lockEntries []any
+		var locked []regCommit
 		for _, d := range decl[dir] {
 			s := d.Name
 			if d.Ref != "" {
@@ -440,53 +603,58 @@ func buildDepWorld(dims []Dim, ix dimIndex, v []int, deps *migDeps) (MigCase, bo
 			}
 			depStrings = append(depStrings, s)
 			c.Decl = append(c.Decl, d)
-			if !hasLock {
+			if !hasLock[dir] {
 				continue
 			}
 			switch d.Name {
 			case sharedName:
-				useShared = true
+				useLevel = sharedLevel[dir]
+				if useLevel > finalLevel {
+					useLevel = finalLevel
+				}
 				// the lock of a v1 module lists the transitive closure: shared and the module it imports
-				lockEntries = append(lockEntries, deps.lockEntry(baseName), deps.lockEntry(sharedName))
-				c.Pins = append(c.Pins, pinDep{Dir: dir, Name: baseName, Commit: uuidutil.ToDashless(deps.mods[baseName].commit)},
-					pinDep{Dir: dir, Name: sharedName, Commit: uuidutil.ToDashless(deps.mods[sharedName].commit)})
+				locked = append(locked, reg.at(baseName, baseLevelOfShared(sharedLevel[dir])), reg.at(sharedName, sharedLevel[dir]))
 			case extraName:
 				useExtra = true
-				lockEntries = append(lockEntries, deps.lockEntry(extraName))
-				c.Pins = append(c.Pins, pinDep{Dir: dir, Name: extraName, Commit: uuidutil.ToDashless(deps.mods[extraName].commit)})
+				locked = append(locked, reg.head(extraName))
 			case modaName:
 				// a pin of a module that is also a module of the workspace (the local module wins)
-				lockEntries = append(lockEntries, deps.lockEntry(modaName))
-				c.Pins = append(c.Pins, pinDep{Dir: dir, Name: modaName, Commit: uuidutil.ToDashless(deps.mods[modaName].commit)})
+				locked = append(locked, reg.head(modaName))
 			}
 		}
 		if len(depStrings) > 0 {
 			y["deps"] = strs(depStrings)
 		}
 		c.Old[jp(dir, "buf.yaml")] = EmitYAML(y)
-		if hasLock {
-			sort.Slice(lockEntries, func(i, j int) bool {
-				return lockEntries[i].(m)["repository"].(string) < lockEntries[j].(m)["repository"].(string)
-			})
-			c.Old[jp(dir, "buf.lock")] = "# Generated by buf. DO NOT EDIT.\n" + EmitYAML(m{"version": "v1", "deps": lockEntries})
+		if hasLock[dir] {
+			sort.Slice(locked, func(i, j int) bool { return locked[i].Name < locked[j].Name })
+			var lockEntries []any
+			for _, rc := range locked {
+				lockEntries = append(lockEntries, lockEntry(rc, digest))
+				c.Pins = append(c.Pins, pinDep{Dir: dir, Name: rc.Name, Commit: rc.dashless()})
+			}
+			doc := m{"deps": lockEntries}
+			if lockVersion != "" {
+				doc["version"] = lockVersion
+			}
+			c.Old[jp(dir, "buf.lock")] = "# Generated by buf. DO NOT EDIT.\n" + EmitYAML(doc)
 		}
 		importA := extra == 4 && dir == "b"
 		pkg := "m" + dir + ".v1"
 		path := jp(dir, "m"+dir+"/v1/x.proto")
-		c.Old[path] = depWorldProto(pkg, false, useShared, useExtra, importA)
-		c.New[path] = depWorldProto(pkg, true, useShared, useExtra, importA)
+		c.Old[path] = depWorldProto(pkg, false, useLevel, useExtra, importA)
+		c.New[path] = depWorldProto(pkg, true, useLevel, useExtra, importA)
 	}
-	for _, refs := range refsByName(c.Decl) {
-		n := 0
-		for ref := range refs {
-			if ref != "" {
-				n++
-			}
+	// registry tables for the dependency oracle (reference data: what was put into the registry)
+	c.CommitTimes = map[string]time.Time{}
+	c.RefCommits = map[string]map[string]string{}
+	for name, h := range reg.history {
+		for _, rc := range h {
+			c.CommitTimes[rc.dashless()] = rc.Time
 		}
-		if n >= 2 {
-			// the in-process registry resolves every ref of a module to its one commit: the migrator's
-			// "latest commit wins" is a tie and either declared ref may be written
-			c.RefTie = true
+		c.RefCommits[name] = map[string]string{}
+		for ref, id := range reg.labels[name] {
+			c.RefCommits[name][ref] = uuidutil.ToDashless(id)
 		}
 	}
 	if layout == 0 {
@@ -512,6 +680,37 @@ func buildDepWorld(dims []Dim, ix dimIndex, v []int, deps *migDeps) (MigCase, bo
 	return c, true
 }
 
+// countDepWorldClauses measures which lock-file forms a migrated dependency world exercised.
+func countDepWorldClauses(cov *counter, c MigCase) {
+	switch c.Vector["d.digest"] {
+	case 1:
+		cov.add("locks/v1-lock-without-digests", 1)
+	case 2:
+		cov.add("locks/v1-lock-with-retired-digest-types", 1)
+	}
+	switch c.Vector["d.lockver"] {
+	case 1:
+		cov.add("locks/lock-version-v1beta1", 1)
+	case 2:
+		cov.add("locks/lock-without-version", 1)
+	}
+	commits := map[string]bool{}
+	for _, p := range c.Pins {
+		if p.Name == sharedName {
+			commits[p.Commit] = true
+		}
+	}
+	if len(commits) > 1 {
+		cov.add("locks/shared-dependency-pinned-at-different-commits", 1)
+		for p, text := range c.Old {
+			if strings.HasSuffix(p, ".proto") && strings.Contains(text, "shared.v1.D2") {
+				cov.add("locks/module-uses-additions-of-a-newer-commit", 1)
+				break
+			}
+		}
+	}
+}
+
 // depWorldVectors enumerates the feature vectors of the dependency-merge worlds.
 //
 // core (declarations x layout): a module that declares nothing is inert for the merge, so a third
@@ -524,6 +723,17 @@ func buildDepWorld(dims []Dim, ix dimIndex, v []int, deps *migDeps) (MigCase, bo
 //	          two-module vectors with two different spellings (no buf.work.yaml)
 //	thorough: every core vector x the full product of locks x versions x second dependency, and
 //	          every declaration triple with an inert or declaring module c (full 4x4x4 product) alone
+//
+// round 3 (history per module, forms of the v1 buf.lock): the new dimensions only matter where two
+// or three modules declare the dependency unpinned and carry a lock (d.pins) resp. where a lock exists
+// (d.digest, d.lockver), so they are enumerated on those cores:
+//
+//	quick:    d.pins at every value x layout on (unpinned, unpinned) and (unpinned, unpinned, unpinned);
+//	          an older first lock x second dependency / versions at every value; x a third module that
+//	          declares a label (the ref decides while the locks disagree); d.digest x d.lockver as a
+//	          full product x layout on (unpinned, unpinned); legacy digests x two labels, x disagreeing locks
+//	thorough: the full product d.pins x d.digest x d.lockver x layout on both cores, and d.pins x the
+//	          full product of locks x versions x second dependency x layout on (unpinned, unpinned)
 func depWorldVectors(dims []Dim, ix dimIndex, quick bool) [][]int {
 	mk := func(a, b, c, layout int, rest []int) []int {
 		v := make([]int, len(dims))
@@ -597,6 +807,58 @@ func depWorldVectors(dims []Dim, ix dimIndex, quick bool) [][]int {
 			}
 		}
 	}
+	// ---- round 3
+	vec := func(a, b, c, layout int, kv map[string]int) []int {
+		v := mk(a, b, c, layout, nil)
+		for name, val := range kv {
+			v[ix[name]] = val
+		}
+		return v
+	}
+	nPins, nDigest, nLockver := dims[ix["d.pins"]].N, dims[ix["d.digest"]].N, dims[ix["d.lockver"]].N
+	for layout := 0; layout < 2; layout++ {
+		if quick {
+			for p := 1; p < nPins; p++ {
+				add(vec(1, 1, 0, layout, map[string]int{"d.pins": p}))
+				add(vec(1, 1, 1, layout, map[string]int{"d.pins": p}))
+			}
+			for e := 1; e < dims[ix["d.extra"]].N; e++ {
+				add(vec(1, 1, 0, layout, map[string]int{"d.pins": 1, "d.extra": e}))
+			}
+			for w := 1; w < dims[ix["d.ver"]].N; w++ {
+				add(vec(1, 1, 0, layout, map[string]int{"d.pins": 1, "d.ver": w}))
+			}
+			for g := 0; g < nDigest; g++ {
+				for lv := 0; lv < nLockver; lv++ {
+					add(vec(1, 1, 0, layout, map[string]int{"d.digest": g, "d.lockver": lv}))
+				}
+				add(vec(1, 1, 0, layout, map[string]int{"d.digest": g, "d.pins": 1}))
+			}
+			add(vec(1, 1, 0, layout, map[string]int{"d.ver": 2, "d.lockver": 1}))
+		} else {
+			for p := 0; p < nPins; p++ {
+				for g := 0; g < nDigest; g++ {
+					for lv := 0; lv < nLockver; lv++ {
+						add(vec(1, 1, 0, layout, map[string]int{"d.pins": p, "d.digest": g, "d.lockver": lv}))
+						add(vec(1, 1, 1, layout, map[string]int{"d.pins": p, "d.digest": g, "d.lockver": lv}))
+					}
+				}
+				for _, rv := range restFull {
+					add(vec(1, 1, 0, layout, map[string]int{"d.pins": p, "d.lock": rv[0], "d.ver": rv[1], "d.extra": rv[2]}))
+				}
+			}
+		}
+	}
+	// the module directories are separate workspaces (mixed spellings): a label decides while the locks of
+	// the unpinned declarers disagree; two labels with legacy locks
+	for c := 2; c < 4; c++ {
+		add(vec(1, 1, c, 1, map[string]int{"d.pins": 1}))
+		add(vec(1, 1, c, 1, map[string]int{"d.pins": 2}))
+	}
+	for g := 1; g < nDigest; g++ {
+		add(vec(2, 3, 0, 1, map[string]int{"d.digest": g}))
+		add(vec(1, 2, 0, 1, map[string]int{"d.digest": g}))
+	}
 	return out
 }
 
@@ -638,7 +900,9 @@ func runMigrationDeps(r *evid.Run) {
 	if snap["skipped_invalid_before_migration"] > 0 {
 		r.Incomplete(fmt.Sprintf("migration (dependency worlds): %d generated worlds do not build before migration (the grammar is meant to generate valid workspaces only)", snap["skipped_invalid_before_migration"]))
 	}
-	for _, clause := range []string{"migrated", "deps_oracle/workspaces_checked", "deps_oracle/external_dep_checked", "deps_oracle/dep_on_workspace_module",
+	for _, clause := range []string{"deps_oracle/two_refs_on_different_commits", "deps_oracle/locks_disagree_without_ref/declared-dependency", "deps_oracle/locks_disagree_without_ref/indirect-dependency",
+		"locks/v1-lock-without-digests", "locks/v1-lock-with-retired-digest-types", "locks/lock-version-v1beta1", "locks/lock-without-version", "locks/module-uses-additions-of-a-newer-commit",
+		"migrated", "deps_oracle/workspaces_checked", "deps_oracle/external_dep_checked", "deps_oracle/dep_on_workspace_module",
 		"deps_oracle/declared_by_two_or_more_modules/declared-unpinned", "deps_oracle/declared_by_two_or_more_modules/declared-pinned",
 		"deps_oracle/declared_by_two_or_more_modules/declared-pinned-and-unpinned", "deps_oracle/declared_by_three_modules",
 		"deps_oracle/two_distinct_refs_declared", "deps_oracle/pin_checked", "deps_oracle/indirect_pin_checked",
